@@ -206,6 +206,14 @@ def descOk (shown : Str) (d : Str) : Bool :=
 def headToken (t : Str) : Str :=
   Str.trimSuffix (Str.cut (Str.cut t " (".toList).1 "_(".toList).1 [Char.ofNat 1]
 
+/-- every text that may be the value part of a display-trick line: the line cut at any ` (` / `_(`
+    (the value itself may contain such a sequence, e.g. a typed word echoed in an error entry) -/
+def headTokens (t : Str) : List Str :=
+  let cuts := (List.range t.length).filter (fun k =>
+    let r := t.drop k
+    Str.hasPrefix r " (".toList || Str.hasPrefix r "_(".toList)
+  (t :: cuts.map (fun k => t.take k)).map (fun h => Str.trimSuffix h [Char.ofNat 1])
+
 def showStr (s : Str) : String := (String.ofList s).quote
 
 def charCode (c : Option Char) : String :=
@@ -398,7 +406,7 @@ def checkC06 (i : FmtInput) (cands : List RawValue) (dec : Decoded) (obs : List 
   else
     let whole := insertsWhole i obs.length
     let errs := if whole then obs.filter (isErrObs i cands)
-                else obs.filter (fun o => endsErrLike (headToken o.text) && !cands.any (fun c => c.display == headToken o.text))
+                else obs.filter (fun o => (headTokens o.text).any (fun h => endsErrLike h && !cands.any (fun c => c.display == h)))
     let hasDescr := i.sh != .bash && i.sh != .oil && i.sh != .tcsh && i.sh != .ion
     let f1 : List Failure :=
       if errs.length < i.msgs.length then [{ prop := "C06", code := s!"{i.sh.name}:err_entries_missing", detail := s!"{errs.length} entries for {i.msgs.length} messages" }] else []
